@@ -660,8 +660,13 @@ def hist_core():
     out = []
     seqs = {"json": HIST_JSON_SEQS, "yaml": HIST_JSON_SEQS, "csv": HIST_CSV_SEQS, "xml": HIST_XML_SEQS}
     k = 0
-    for f in HIST_FNS:                               # enumerated core: every function x configuration x sequence, shapes in rotation
-        for docs in seqs[f["cls"]]:
+    first = set()
+    for f in HIST_FNS:                               # enumerated core, shapes in rotation: every function x every sequence under its
+        ss = seqs[f["cls"]]                          # first configuration, four sequences (in rotation) under each other configuration
+        if f["fn"] in first:
+            ss = [ss[(k + j) % len(ss)] for j in range(4)]
+        first.add(f["fn"])
+        for docs in ss:
             if f["cls"] == "yaml" and not all(hist_doc_ok(d) for d in docs):
                 docs = [d for d in docs if hist_doc_ok(d)] * 2
             out.append(dict(f, kind="hist", shape=HIST_SHAPES[k % len(HIST_SHAPES)], docs=docs))
@@ -1272,13 +1277,24 @@ def run_cases(run, vh, cases, shard=120):
             rq["id"] = "%d.%s" % (c["id"], slot)
             reqs[cmd].append(rq)
     obs = {c["id"]: {} for c in cases}
+    # the one-shot programs of histories repeat (same function, configuration and document): each distinct one runs once
+    once, same = {}, {}
+    for rq in reqs["eval"]:
+        if rq["id"].split(".")[1].startswith("o"):
+            if rq["src"] in once:
+                same.setdefault(once[rq["src"]], []).append(rq["id"])
+            else:
+                once[rq["src"]] = rq["id"]
+    dup = {x for ids in same.values() for x in ids}
+    reqs["eval"] = [rq for rq in reqs["eval"] if rq["id"] not in dup]
     for cmd, rs in reqs.items():
         if not rs:
             continue
         outs, rc, err = run_harness(vh, cmd, rs)
         for rid, o in outs.items():
-            cid, slot = rid.split(".")
-            obs[int(cid)][slot] = o
+            for rid2 in [rid] + same.get(rid, []):
+                cid, slot = rid2.split(".")
+                obs[int(cid)][slot] = o
     terms = []
     for c in cases:
         t = coq_case(c, obs[c["id"]])
